@@ -69,6 +69,7 @@ func checkC09(w *World, r *Report) {
 	p5(w, r, reach, scope)
 	p6(w, r, reach, scope)
 	p7(w, r, scope)
+	p8(w, r)
 
 	r.Floor("P-1", 2, "explicit panics / Must* on the input paths, each with its exception")
 	r.Floor("P-2", 3, "payload assertions without comma-ok")
@@ -76,6 +77,151 @@ func checkC09(w *World, r *Report) {
 	r.Floor("P-4", 6, "dereferences of may-be-nil results")
 	r.Floor("P-5", 1, "divisions by non-constants")
 	r.Floor("P-6", 2, "pointer fields of decoded request objects and their producers")
+}
+
+// ---- P-8 : per-block objects that do not exist before the first block
+//
+// A pointer-typed field of a controller that the constructor leaves nil and that
+// is created while a block executes (the EVM, its state wrapper, the gas pool) is
+// nil in a process that has not executed a block yet — and CheckTx and Query can
+// arrive before the first BeginBlock after a restart. Every dereference of such a
+// field at a point that can run in a CheckTx or Query context needs a dominating
+// nil test of the field.
+func p8(w *World, r *Report) {
+	x := NewExecCtx(w)
+	n := 0
+	var lazy []string
+	for _, ci := range ctrls {
+		ctor := w.Func(ci.pkg, ci.ctor)
+		named := w.Named(ci.pkg, ci.typ)
+		if ctor == nil || named == nil {
+			continue
+		}
+		st, ok := named.Underlying().(*types.Struct)
+		if !ok {
+			continue
+		}
+		// fields the constructor (and what it calls) assigns
+		inCtor := map[string]bool{}
+		starts := w.withModuleCallees(ctor, 2)
+		if ci.typ == "RigoApp" {
+			// the handshake (Info) is part of start-up: Tendermint calls it before it
+			// serves the mempool or the rpc
+			if info := w.appMethod("Info"); info != nil {
+				starts = append(starts, w.withModuleCallees(info, 2)...)
+			}
+		}
+		for _, g := range starts {
+			for _, fs := range w.fieldStores(g) {
+				if fs.Owner != nil && fs.Owner.Obj() == named.Obj() {
+					if c, isC := fs.Val.(*ssa.Const); isC && c.IsNil() {
+						continue
+					}
+					inCtor[fs.Field.Name()] = true
+				}
+			}
+		}
+		// fields assigned somewhere else (created later)
+		later := map[string]bool{}
+		for _, fn := range x.funcs {
+			for _, fs := range w.fieldStores(fn) {
+				if fs.Owner != nil && fs.Owner.Obj() == named.Obj() && !inCtor[fs.Field.Name()] {
+					if c, isC := fs.Val.(*ssa.Const); isC && c.IsNil() {
+						continue
+					}
+					later[fs.Field.Name()] = true
+				}
+			}
+		}
+		for i := 0; i < st.NumFields(); i++ {
+			f := st.Field(i)
+			if !later[f.Name()] {
+				continue
+			}
+			if _, isPtr := f.Type().Underlying().(*types.Pointer); !isPtr {
+				continue
+			}
+			lazy = append(lazy, ci.typ+"."+f.Name())
+			for _, fn := range x.funcs {
+				for _, b := range fn.Blocks {
+					p := x.PolAt(b)
+					if p.within(polT) {
+						continue
+					}
+					for _, in := range b.Instrs {
+						ld, isLd := in.(*ssa.UnOp)
+						if !isLd || ld.Op != token.MUL {
+							continue
+						}
+						fa, isFA := ld.X.(*ssa.FieldAddr)
+						if !isFA {
+							continue
+						}
+						on, of := fieldOf(fa.X.Type(), fa.Field)
+						if on == nil || of == nil || on.Obj() != named.Obj() || of.Name() != f.Name() {
+							continue
+						}
+						ds := derefsOf(ld)
+						if len(ds) == 0 {
+							continue
+						}
+						n++
+						key := fmt.Sprintf("%s:%s.%s", w.FName(fn), ci.typ, f.Name())
+						if w.nilTestAt(ld, b) == 1 || w.fieldNilTested(fn, fa, ds[0].Block()) {
+							r.OK("P-8", key, "dereference of a per-block object behind a nil test of the field", site(w, ds[0]))
+						} else {
+							r.Violate("P-8", key, fmt.Sprintf("%s.%s is nil until the first block of this process has begun (the constructor does not create it), and it is dereferenced here in context %s: a CheckTx or Query arriving after a restart and before the first BeginBlock panics", ci.typ, f.Name(), p), nil, site(w, ds[0]))
+						}
+					}
+				}
+			}
+		}
+	}
+	r.Extra["p8_sites"] = n
+	// positive control: the per-block objects of the EVM controller must be found
+	sort.Strings(lazy)
+	if len(lazy) >= 3 {
+		r.OK("P-8", "per-block-objects", fmt.Sprintf("pointer fields created while a block executes and not by start-up: %v; none is dereferenced at a point that can run in a CheckTx or Query context without a nil test", lazy))
+	} else {
+		r.Undecided("P-8", "per-block-objects", fmt.Sprintf("only %d controller field(s) created after start-up were found %v (the EVM, its state wrapper and the gas pool are expected)", len(lazy), lazy))
+	}
+}
+
+// fieldNilTested: block b is entered only where some load of the same field was
+// found non-nil.
+func (w *World) fieldNilTested(fn *ssa.Function, fa *ssa.FieldAddr, b *ssa.BasicBlock) bool {
+	want := w.Canon(fa)
+	for _, blk := range fn.Blocks {
+		ifi, ok := lastInstr(blk).(*ssa.If)
+		if !ok {
+			continue
+		}
+		bo, ok := ifi.Cond.(*ssa.BinOp)
+		if !ok || (bo.Op != token.NEQ && bo.Op != token.EQL) {
+			continue
+		}
+		var other ssa.Value
+		if c, isC := bo.Y.(*ssa.Const); isC && c.IsNil() {
+			other = bo.X
+		} else if c, isC := bo.X.(*ssa.Const); isC && c.IsNil() {
+			other = bo.Y
+		}
+		if other == nil {
+			continue
+		}
+		ld, isLd := stripConv(other).(*ssa.UnOp)
+		if !isLd || ld.Op != token.MUL || w.Canon(ld.X) != want {
+			continue
+		}
+		e := condEdge(ifi, b)
+		if e == 0 {
+			continue
+		}
+		if (e == 1) == (bo.Op == token.NEQ) {
+			return true
+		}
+	}
+	return false
 }
 
 // ---- P-1
